@@ -618,6 +618,7 @@ def model_answers(chk, runs):
                 plen = len(pay[0]['btsd']) // 2 if pay and pay[0]['btsd'] is not None else 0
                 non_pyld = size - plen + 3 * len(enc(plen))
                 ev['sp']['frag'] = 'unsendable' if non_pyld > mtu else 'consumed'
+                chk.count('frag-outcome:%s' % ev['sp']['frag'])
                 changed = True
         if changed:
             again.append(n)
